@@ -206,6 +206,15 @@ def run(prog: Program, res: Result) -> None:
               if isinstance(n, ast.Assign) and isinstance(n.targets[0], ast.Subscript) and dotted(n.targets[0].value) == "kwargs"
               and isinstance(n.targets[0].slice, ast.Constant) and n.targets[0].slice.value == "space_dimension"]
     verdicts = [_dimension_verdict(v) for v in stored]
+    # positively conditional derivations: the caller's own `space_dimension` wins
+    for n in own_nodes(init):
+        if isinstance(n, ast.Call) and dotted(n.func) == "kwargs.setdefault" and n.args and isinstance(n.args[0], ast.Constant) \
+                and n.args[0].value == "space_dimension":
+            verdicts.append("only a default (`kwargs.setdefault`): a value passed by the caller replaces the sum of the sizes")
+        if isinstance(n, ast.Assign) and n.value in stored:
+            for a_ in ancestors(n):
+                if isinstance(a_, ast.If) and any(isinstance(c_, ast.Constant) and c_.value == "space_dimension" for c_ in ast.walk(a_.test)):
+                    verdicts.append(f"derived only when `{norm(a_.test, 50)}`: a value passed by the caller replaces the sum of the sizes")
     ok = bool(verdicts) and all(x is True for x in verdicts)
     wrong = [x for x in verdicts if isinstance(x, str)]
     if wrong:
